@@ -289,6 +289,7 @@ class Collector:
         self.by_sig = {}
         self.stats = {}
         self.other = []
+        self.passed = set()        # ids of the cases of the latest absorb() that passed
 
     def absorb(self, verdicts, cases, model, check_sig=True, binary=None):
         # a case that got no answer in time is run again on its own with a very long deadline before it counts
@@ -305,10 +306,12 @@ class Collector:
                 r["id"] = v["id"]
                 redo[v["id"]] = r
             verdicts = [redo.get(v["id"], v) if (not v.get("ok") and v.get("key") == "timeout") else v for v in verdicts]
+        self.passed = set()
         for v in verdicts:
             for k, n in (v.get("stats") or {}).items():
                 self.stats[k] = self.stats.get(k, 0) + n
             if v.get("ok"):
+                self.passed.add(v["id"])
                 continue
             case = cases[v["id"]]
             obs = v.get("obs")
